@@ -18,6 +18,8 @@ type Case struct {
 	Tape     []uint32 `json:"tape"`
 	// Sched: schedule choices of the kinds that run under the goroutine scheduler
 	Sched []uint32 `json:"sched,omitempty"`
+	// Pol: the auxiliary tape of the schedule stream (scheduling policy, priorities)
+	Pol []uint32 `json:"pol,omitempty"`
 }
 
 type Finding struct {
